@@ -40,10 +40,19 @@ def text(s):
     return SymStr.from_marked(s) if SymStr.has_marker(s) else s
 
 
+# KNOWN DEFECT (pre-existing, reported by an independent engineer; unchanged tree): locatorLabelToIndices pads a two-index
+# label with None, and Grid.getLabel formats every third entry with ':03d', so label -> indices -> label raises:
+#   Grid.getLabel(locatorLabelToIndices('001-002')) -> TypeError: unsupported format string passed to NoneType.__format__
+# To be repaired in /repo: /tmp/scratch/triage/KNOWN_DEFECT_label_of_parsed_two_index_label_raises.diff
+KNOWN_DEFECT_label_of_parsed_two_index_label_raises = False  # repaired in /repo (fix: a8c7600)
+_SHOW_KNOWN = os.environ.get("VERIF_SHOW_KNOWN_DEFECTS", "") != ""
+
+
 @harness("C07", bounds="indices 0 <= i,j,k < 10^9 symbolic (labels are documented for 0-based, non-negative locators); "
-                       "2- and 3-index labels", stubs=STUBS, max_paths=5000,
-         instances={"quick": [dict(n=2), dict(n=3)]})
-def label_parses_back_to_indices(ctx, n):
+                       "2- and 3-index labels; label -> indices -> label as well (3-index labels: thorough tier)",
+         stubs=STUBS, max_paths=5000,
+         instances={"quick": [dict(n=2), dict(n=3, relabel=False)], "thorough": [dict(n=3)]})
+def label_parses_back_to_indices(ctx, n, relabel=True):
     idx = tuple(ctx.int("ijk"[m], 0, 10 ** 9 - 1) for m in range(n))
     lab = text(Grid.getLabel(idx))
     back = locatorLabelToIndices(lab)
@@ -55,6 +64,15 @@ def label_parses_back_to_indices(ctx, n):
     if n == 2:
         ctx.check("missing axial index comes back as None", back[2] is None)
     ctx.check("label has at least 3 digits per index", len(lab) >= 4 * n - 1)
+    if relabel and (n == 3 or _SHOW_KNOWN or not KNOWN_DEFECT_label_of_parsed_two_index_label_raises):
+        # the other way round: label -> indices -> label is the identity too (compared through a second parse, and by length)
+        lab2 = text(Grid.getLabel(locatorLabelToIndices(lab)))
+        again = locatorLabelToIndices(lab2)
+        ctx.check("the label of the parsed indices is as long as the label", len(lab2) == len(lab))
+        for m in range(n):
+            ctx.check_eq("the label of the parsed indices parses to the same index %d" % m, again[m], idx[m])
+        if n == 2:
+            ctx.check("the label of the parsed indices has no axial field either", again[2] is None)
 
 
 @harness("C07", bounds="all integer cells (i,j), k >= 0 below 10^6; hex labels are ring-position based", stubs=STUBS,
@@ -132,6 +150,12 @@ def cartesian_ring_position_is_a_bijection_per_ring(ctx, offset):
 # RECORDED in /verif/known_findings.jsonl (not repaired: StructuredGrid test_getIndexBounds pins the count, and the
 # axial-only classification of a one-cell axial grid, kLen > 1, rests on it); the obligations are live.
 KNOWN_DEFECT_bounds_defined_grid_builds_a_locator_beyond_its_last_cell = False
+# KNOWN DEFECT (pre-existing, reported by an independent engineer; unchanged tree): getCoordinates and getCellBase refuse a
+# negative index of a bounds-defined dimension (IndexError, "avoid wrap-around"), getCellTop shifts the index by one
+# before the guard sees it and returns the lowest bound as the top of a cell that does not exist:
+#   g = AxialGrid.fromNCells(3); g.getCellTop((0, 0, -1)) -> [0, 0, 0]; g.getCellBase((0, 0, -1)) -> IndexError
+# To be repaired in /repo: /tmp/scratch/triage/KNOWN_DEFECT_cell_top_of_negative_bounds_index_is_not_refused.diff
+KNOWN_DEFECT_cell_top_of_negative_bounds_index_is_not_refused = False  # repaired in /repo (fix: 09ba4b1)
 
 
 @harness("C07", bounds="bounds-defined axis with 2..4 strictly increasing symbolic bounds; index forked over its range; "
@@ -173,6 +197,16 @@ def bounds_defined_cells(ctx, n):
     except IndexError:
         refused = True
     ctx.check("negative bounds index refused (no wrap-around)", refused)
+    # there is no cell (0, 0, -1): its base and its top are refused like its centre (no wrap-around, no neighbour's bound)
+    for what, fn in (("base", g.getCellBase), ("top", g.getCellTop)):
+        if what == "top" and KNOWN_DEFECT_cell_top_of_negative_bounds_index_is_not_refused and not _SHOW_KNOWN:
+            continue
+        try:
+            fn((0, 0, -1))
+            refused = False
+        except IndexError:
+            refused = True
+        ctx.check("negative bounds index refused by the cell %s too" % what, refused)
     # theta-R-Z: native coordinates are the bound midpoints; ring/pos <-> indices are mutual inverses
     trz = ThetaRZGrid(bounds=([0.0, 1.0, 2.0], zs, [0.0, 10.0]))
     th, r, z = trz.getCoordinates((1, k, 0), nativeCoords=True)
@@ -814,3 +848,307 @@ def pitch_change_leaves_the_axial_direction_alone(ctx, kind):
         ctx.check_close("z (axial step and z offset) untouched by a pitch change", z2, z,
                         scale=dz * (abs(k) + 1) + 1000.0)
         ctx.check_close("z offset untouched by a pitch change", g.offset[2], oz, scale=1000.0)
+
+
+# ---------------------------------------------------------------------------------------------------------------------
+# "changing the pitch rescales coordinates and nothing else" holds for a grid however it was built: fromPitch /
+# fromRectangle hand the constructor floating-point steps, but the constructor is public and its own docstring example
+# (`Grid(unitSteps=((2, 0, 0), (0, 3, 0), (0, 0, 0)))`) gives it WHOLE NUMBERS, as do unitStepLimits-style offsets and
+# bounds written as integers.  The grid must not inherit "integer-ness" from such arguments: the new pitch is any real.
+# The whole-number constructor arguments are instance parameters (plain Python ints: their type is the point); the new
+# pitch and the cell indices are symbolic.
+
+WHOLE_NUMBER_GRIDS = {
+    # kind: (x step, y step, z step, offset) all plain ints
+    "cart2D": (2, 3, 0, None),
+    "cart2DOffset": (2, 4, 0, (1, 2, 0)),
+    "cart3D": (1, 1, 5, (1, 1, 7)),
+    "hex3D": (None, None, 5, (3, -2, 7)),
+    "hexCorners3D": (None, None, 4, (0, 0, 2)),
+}
+
+
+@harness("C07", bounds="Cartesian grids built directly by the constructor from whole-number (Python int) unit steps, axial "
+                       "step and offset (2-D as in the class docstring, 2-D with offset, 3-D), hex grids (both "
+                       "orientations) with whole-number axial step and offset; new pitches symbolic reals in (0.01, 1000); "
+                       "all integer cells (i, j, k); grid rebuilt from reduce() after the change", stubs=STUBS,
+         instances={"quick": [dict(kind=k) for k in WHOLE_NUMBER_GRIDS]})
+def pitch_change_of_a_grid_built_from_whole_number_constructor_arguments(ctx, kind):
+    i, j, k = ctx.int("i"), ctx.int("j"), ctx.int("k")
+    p2, q2 = ctx.real("p2", 0.01, 1000.0), ctx.real("q2", 0.01, 1000.0)
+    a, b, dz, off = WHOLE_NUMBER_GRIDS[kind]
+    limits = ((-3, 4), (-3, 4), (0, 4))
+    isHex = kind.startswith("hex")
+    if isHex:
+        steps = [list(row) for row in HexGrid._getRawUnitSteps(2, kind == "hexCorners3D")]
+        steps[2][2] = dz
+        g = HexGrid(unitSteps=steps, unitStepLimits=limits, offset=off)
+        a = b = 2
+        q2 = p2
+    else:
+        g = CartesianGrid(unitSteps=((a, 0, 0), (0, b, 0), (0, 0, dz)), unitStepLimits=limits, offset=off)
+    ox, oy, oz = off if off is not None else (0, 0, 0)
+    x, y, z = g.getCoordinates((i, j, k))
+    n = abs(i) + abs(j) + abs(k) + 2
+    if not isHex:
+        ctx.check_close("as built: x = x step * i + offset", x, a * i + ox, scale=10.0 * n)
+        ctx.check_close("as built: y = y step * j + offset", y, b * j + oy, scale=10.0 * n)
+    ctx.check_close("as built: z = axial step * k + offset", z, dz * k + oz, scale=10.0 * n)
+    if isHex:
+        g.changePitch(p2)
+    else:
+        g.changePitch(p2, q2)
+    x2, y2, z2 = g.getCoordinates((i, j, k))
+    sc = (p2 + q2 + 10.0) * n
+    # the Cartesian pitch change scales the x, y offset with the pitch (documented); the hex one leaves it alone
+    wx = (x - ox) * p2 / a + (ox if isHex else ox * p2 / a)
+    wy = (y - oy) * q2 / b + (oy if isHex else oy * q2 / b)
+    if ctx.canary:
+        wx = wx + p2 * ITE(AND(i == 2, j == -3), 1, 0)
+    ctx.check_close("x rescaled by new pitch / old pitch", x2, wx, scale=sc)
+    ctx.check_close("y rescaled by new pitch / old pitch", y2, wy, scale=sc)
+    ctx.check_close("z (axial step and z offset) untouched", z2, z, scale=sc)
+    if isHex:
+        ctx.check_close("the new pitch reads back", g.pitch, p2, scale=p2)
+    else:
+        ctx.check_close("the new x pitch reads back", g.pitch[0], p2, scale=p2)
+        ctx.check_close("the new y pitch reads back", g.pitch[1], q2, scale=q2)
+        bx, by, _bz = g.getCellBase((i, j, k))
+        tx, ty, _tz = g.getCellTop((i, j, k))
+        ctx.check_close("base x is half a new pitch below the centre", bx, x2 - p2 / 2, scale=sc)
+        ctx.check_close("top x is half a new pitch above the centre", tx, x2 + p2 / 2, scale=sc)
+        ctx.check_close("base y is half a new pitch below the centre", by, y2 - q2 / 2, scale=sc)
+        ctx.check_close("top y is half a new pitch above the centre", ty, y2 + q2 / 2, scale=sc)
+    g2 = type(g)(*g.reduce())
+    c2 = g2.getCoordinates((i, j, k))
+    for m, want in enumerate((x2, y2, z2)):
+        ctx.check_close("grid rebuilt from its constructor arguments after the change: same centre (%d)" % m, c2[m], want,
+                        scale=sc)
+
+
+# ---------------------------------------------------------------------------------------------------------------------
+# "a grid rebuilt from its stored constructor arguments gives the same coordinates and metadata for every index": each
+# of the three dimensions of a structured grid is defined EITHER by a unit step OR by bounds, independently of the others
+# ("Each dimension must either be defined through unitSteps or bounds"), so there are 8 layouts, among them bounds BEFORE
+# steps (non-uniform x mesh with regular y / z steps; non-uniform y between regular x and z; x-y bounds under a z step).
+# The unit steps of a mixed grid have one column per step-defined dimension (the dot product runs over those only).
+
+LAYOUTS = ["".join(t) for t in __import__("itertools").product("sb", repeat=3)]      # 's' step, 'b' bounds; x, y, z
+
+
+def _layout_grid(layout, steps, shear, bnds, offset, cls=CartesianGrid, **kw):
+    stepDims = [d for d in range(3) if layout[d] == "s"]
+    n = len(stepDims)
+    rows = []
+    for d in range(3):
+        row = [0.0] * n
+        if layout[d] == "s":
+            col = stepDims.index(d)
+            row[col] = steps[d]
+            if n > 1:
+                row[(col + 1) % n] = shear * (col + 1)      # non-orthogonal axes (a hexagonal grid has them)
+        rows.append(tuple(row))
+    return cls(unitSteps=tuple(rows) if n else (0, 0, 0),
+               bounds=tuple(bnds[d] if layout[d] == "b" else None for d in range(3)),
+               unitStepLimits=tuple((-3, 4) if layout[d] == "s" else (0, 1) for d in range(3)), offset=offset, **kw)
+
+
+@harness("C07", bounds="every assignment of {unit step, bounds} to the dimensions x, y, z (8 layouts: all steps, all "
+                       "bounds, and the 6 mixed ones, bounds before steps included); symbolic steps (with a shear between "
+                       "the step-defined axes), 3 symbolic bounds per bounds-defined dimension, symbolic offset in all "
+                       "three dimensions; step indices all integers, bounds indices forked over their cells", stubs=STUBS,
+         instances={"quick": [dict(layout=l) for l in LAYOUTS]})
+def grid_rebuilt_from_constructor_arguments_in_every_layout_of_steps_and_bounds(ctx, layout):
+    p, q, r = ctx.real("p", 0.01, 1000.0), ctx.real("q", 0.01, 1000.0), ctx.real("r", 0.01, 1000.0)
+    shear = ctx.real("shear", -10.0, 10.0)
+    off = (ctx.real("ox", -1000.0, 1000.0), ctx.real("oy", -1000.0, 1000.0), ctx.real("oz", -1000.0, 1000.0))
+    ijk = [ctx.int("i"), ctx.int("j"), ctx.int("k")]
+    steps = (p, q, r)
+    bnds = ([0.0, q, q + r], [-p, 0.0, r], [r, r + p, r + p + q])
+    g = _layout_grid(layout, steps, shear, bnds, off, geomType="cartesian", symmetry="full")
+    idx = []
+    for d in range(3):
+        if layout[d] == "b":
+            ctx.assume(AND(ijk[d] >= 0, ijk[d] <= 1))
+            idx.append(int(ijk[d]))
+        else:
+            idx.append(ijk[d])
+    idx = tuple(idx)
+    g2 = type(g)(*g.reduce())
+    sc = (p + q + r + 30.0) * (abs(ijk[0]) + abs(ijk[1]) + abs(ijk[2]) + 3) + 3000.0
+    # independent oracle: step-defined dimension = own step * index + shear * (next step-defined index) + offset,
+    # bounds-defined dimension = midpoint / lower / upper bound + offset
+    stepDims = [d for d in range(3) if layout[d] == "s"]
+    maps = (("centre", g.getCoordinates(idx), g2.getCoordinates(idx)),
+            ("base", g.getCellBase(idx), g2.getCellBase(idx)),
+            ("top", g.getCellTop(idx), g2.getCellTop(idx)))
+    for what, orig, rebuilt in maps:
+        for d in range(3):
+            got = rebuilt[d]
+            if ctx.canary and what == "top" and d == 2:
+                got = got + ITE(off[1] > 999, 1, 0)
+            ctx.check_close("layout %s: rebuilt grid has the same %s[%d]" % (layout, what, d), got, orig[d], scale=sc)
+    centre = maps[0][2]
+    for d in range(3):
+        if layout[d] == "s":
+            col = stepDims.index(d)
+            want = steps[d] * idx[d] + off[d]
+            if len(stepDims) > 1:
+                want = want + shear * (col + 1) * idx[stepDims[(col + 1) % len(stepDims)]]
+        else:
+            want = (bnds[d][idx[d]] + bnds[d][idx[d] + 1]) / 2 + off[d]
+        ctx.check_close("layout %s: rebuilt grid's centre[%d] is the step- / bounds-defined function of the index plus offset"
+                        % (layout, d), centre[d], want, scale=sc)
+    for d in range(3):
+        ctx.check_close("layout %s: rebuilt grid has the same offset[%d]" % (layout, d), g2.offset[d], g.offset[d],
+                        scale=1000.0)
+    ctx.check("layout %s: rebuilt grid has the same symmetry and geometry type" % layout,
+              str(g2._symmetry) == str(g._symmetry) and g2._geomType == g._geomType)
+    ctx.check("layout %s: rebuilt grid has the same index bounds and axial-only classification" % layout,
+              g2.getIndexBounds() == g.getIndexBounds() and g2.isAxialOnly == g.isAxialOnly)
+    ctx.check("layout %s: rebuilt grid is defined by steps / bounds in the same dimensions" % layout,
+              tuple(b is None for b in g2.getBounds()) == tuple(c == "s" for c in layout))
+
+
+# ---------------------------------------------------------------------------------------------------------------------
+# "changing the pitch rescales coordinates and nothing else" for the 3-D core / pin-mesh layout: x and y defined by unit
+# steps (2 x 2: one row and one column per step-defined dimension), z defined by bounds.
+#
+# KNOWN DEFECT (pre-existing, reported by an independent engineer; unchanged tree): HexGrid.changePitch and
+# CartesianGrid.changePitch build a 3 x 3 step matrix and keep the ROWS of the step-defined dimensions only, installing a
+# 2 x 3 matrix in such a grid, after which every coordinate look-up raises:
+#   g = CartesianGrid(unitSteps=((1.0, 0.0), (0.0, 2.0), (0, 0)), bounds=(None, None, [0.0, 1.0, 3.0]))
+#   g.getCoordinates((1, 1, 1)) -> [1, 2, 2]; g.changePitch(2.0, 4.0)
+#   g.getCoordinates((1, 1, 1)) -> ValueError: shapes (2,3) and (2,) not aligned
+#   (same for HexGrid(unitSteps=(raw[0][:2], raw[1][:2], (0, 0)), bounds=(None, None, [...])) and changePitch(2.6))
+# To be repaired in /repo: /tmp/scratch/triage/KNOWN_DEFECT_change_pitch_with_bounds_defined_z_installs_misshapen_steps.diff
+# While the flag is set the pitch is left unchanged (the as-built obligations stay); VERIF_SHOW_KNOWN_DEFECTS=1 shows it.
+KNOWN_DEFECT_change_pitch_with_bounds_defined_z_installs_misshapen_steps = False  # repaired in /repo (fix: 4e21096)
+
+
+@harness("C07", bounds="hex (both orientations) and Cartesian grids with x-y unit steps and 3 symbolic z bounds; symbolic "
+                       "offset; old and new pitches symbolic; all integer (i, j), k forked over the two cells; grid rebuilt "
+                       "from reduce() after the change", stubs=STUBS,
+         instances={"quick": [dict(kind=k) for k in ("hex", "hexCorners", "cart")]})
+def pitch_change_of_a_grid_with_bounds_defined_axial_direction(ctx, kind):
+    i, j = ctx.int("i"), ctx.int("j")
+    k = int(ctx.int("k", 0, 1))
+    p, q = ctx.real("p", 0.01, 1000.0), ctx.real("q", 0.01, 1000.0)
+    p2, q2 = ctx.real("p2", 0.01, 1000.0), ctx.real("q2", 0.01, 1000.0)
+    h0, h1 = ctx.real("h0", 0.01, 1000.0), ctx.real("h1", 0.01, 1000.0)
+    off = (ctx.real("ox", -1000.0, 1000.0), ctx.real("oy", -1000.0, 1000.0), ctx.real("oz", -1000.0, 1000.0))
+    zs = [0.0, h0, h0 + h1]
+    limits = ((-3, 4), (-3, 4), (0, 1))
+    hidden = KNOWN_DEFECT_change_pitch_with_bounds_defined_z_installs_misshapen_steps and not _SHOW_KNOWN
+    if kind.startswith("hex"):
+        raw = HexGrid._getRawUnitSteps(p, kind == "hexCorners")
+        g = HexGrid(unitSteps=(raw[0][:2], raw[1][:2], (0, 0)), bounds=(None, None, zs), unitStepLimits=limits, offset=off)
+        flat = HexGrid.fromPitch(p, numRings=1, cornersUp=kind == "hexCorners")
+        q, q2 = p, p2
+    else:
+        g = CartesianGrid(unitSteps=((p, 0.0), (0.0, q), (0, 0)), bounds=(None, None, zs), unitStepLimits=limits, offset=off)
+        flat = CartesianGrid.fromRectangle(p, q, numRings=1)
+    x, y, z = g.getCoordinates((i, j, k))
+    fx, fy, _fz = flat.getCoordinates((i, j, 0))
+    n = abs(i) + abs(j) + 2
+    sc = (p + q + p2 + q2) * n + 3000.0
+    wantz = (zs[k] + zs[k + 1]) / 2 + off[2]
+    if ctx.canary:
+        wantz = wantz + ITE(AND(i == 1, j == -2), 1, 0)
+    ctx.check_close("as built: x is that of the 2-D grid of the same pitch, plus offset", x, fx + off[0], scale=sc)
+    ctx.check_close("as built: y is that of the 2-D grid of the same pitch, plus offset", y, fy + off[1], scale=sc)
+    ctx.check_close("as built: z is the midpoint of the cell's z bounds, plus offset", z, wantz, scale=sc)
+    if hidden:
+        return
+    if kind.startswith("hex"):
+        g.changePitch(p2)
+        ox2, oy2 = off[0], off[1]                         # the hex pitch change leaves the offset alone
+    else:
+        g.changePitch(p2, q2)
+        ox2, oy2 = off[0] * p2 / p, off[1] * q2 / q       # the Cartesian one scales it with the pitch (documented)
+    x2, y2, z2 = g.getCoordinates((i, j, k))
+    sc2 = sc * (1 + p2 / p + q2 / q)
+    ctx.check_close("x rescaled by new pitch / old pitch", x2 - ox2, fx * p2 / p, scale=sc2)
+    ctx.check_close("y rescaled by new pitch / old pitch", y2 - oy2, fy * q2 / q, scale=sc2)
+    ctx.check_close("z (bounds and z offset) untouched by a pitch change", z2, z, scale=sc)
+    ctx.check_close("cell base z is still the lower bound", g.getCellBase((i, j, k))[2], zs[k] + off[2], scale=sc)
+    ctx.check_close("cell top z is still the upper bound", g.getCellTop((i, j, k))[2], zs[k + 1] + off[2], scale=sc)
+    ctx.check("the z bounds are untouched", list(g.getBounds()[2]) == zs and g.getBounds()[0] is None
+              and g.getBounds()[1] is None)
+    g2 = type(g)(*g.reduce())
+    c2 = g2.getCoordinates((i, j, k))
+    for m, want in enumerate((x2, y2, z2)):
+        ctx.check_close("grid rebuilt from its constructor arguments after the change: same centre (%d)" % m, c2[m], want,
+                        scale=sc2)
+
+
+# ---------------------------------------------------------------------------------------------------------------------
+# "Locations in nested grids compose by adding the parent's coordinates and (for axial-in-radial nesting ONLY) indices":
+# which grid is "axial" is the grid's own classification (isAxialOnly, read by addingIsValid).  A grid is axial-only when
+# it holds exactly one (i, j) column of more than one cell; the oracle counts the cells from the step limits / bounds the
+# grid was given (range()-style: minimum and upper limit per dimension).
+#
+# KNOWN DEFECT (pre-existing, reported by an independent engineer; unchanged tree): the classification reads the UPPER LIMIT
+# of each index range as the number of indices, so a grid whose i and j run over -1..0 (2 x 2 columns) counts as one column:
+#   steps = [list(r) for r in HexGrid._getRawUnitSteps(1.0)]; steps[2][2] = 2.0
+#   g = HexGrid(unitSteps=steps, unitStepLimits=((-1, 1), (-1, 1), (0, 4))); len(g) -> 16; g.isAxialOnly -> True
+# To be repaired in /repo: /tmp/scratch/triage/KNOWN_DEFECT_axial_only_reads_upper_index_limit_as_cell_count.diff
+# While the flag is set index ranges start at 0; VERIF_SHOW_KNOWN_DEFECTS=1 shows the violation.
+KNOWN_DEFECT_axial_only_reads_upper_index_limit_as_cell_count = False  # repaired in /repo (fix: cc5457a)
+
+
+@harness("C07", bounds="3-D hex and Cartesian step grids with symbolic index ranges (minimum in -2..0, 1 or 2 or 3 indices per "
+                       "radial dimension, 1..3 planes; forked) and axial grids with 2..4 bounds; nested in a hex parent "
+                       "grid", stubs=STUBS, max_paths=5000,
+         instances={"quick": [dict(kind=k) for k in ("hex", "cart", "axial")]})
+def axial_only_classification_counts_the_cells(ctx, kind):
+    from armi.reactor import composites
+
+    lo = [ctx.int("lo%d" % d, -2, 0) for d in range(3)]
+    num = [ctx.int("n%d" % d, 1, 3) for d in range(3)]
+    dz = ctx.real("dz", 0.01, 1000.0)
+    if KNOWN_DEFECT_axial_only_reads_upper_index_limit_as_cell_count and not _SHOW_KNOWN:
+        for d in range(3):
+            ctx.assume(lo[d] == 0)
+    ctx.assume(lo[2] == 0)          # planes are counted from 0 in every armi grid
+    if kind == "axial":
+        for d in range(3):
+            ctx.assume(lo[d] == 0)
+    lo = [int(v) for v in lo]
+    num = [int(v) for v in num]
+    if kind == "hex":
+        steps = [list(row) for row in HexGrid._getRawUnitSteps(1.0)]
+        steps[2][2] = dz
+        g = HexGrid(unitSteps=steps, unitStepLimits=tuple((lo[d], lo[d] + num[d]) for d in range(3)))
+        cells = num
+    elif kind == "cart":
+        g = CartesianGrid(unitSteps=((1.0, 0.0, 0.0), (0.0, 2.0, 0.0), (0.0, 0.0, dz)),
+                          unitStepLimits=tuple((lo[d], lo[d] + num[d]) for d in range(3)))
+        cells = num
+    else:
+        # (one plane = 2 bounds is left out: armi counts the bounds, not the cells, of a bounds-defined dimension, which is
+        # a recorded finding, see bounds_defined_cells)
+        ctx.assume(num[2] >= 2)
+        g = AxialGrid(bounds=(None, None, [dz * m for m in range(num[2] + 1)]))
+        cells = [1, 1, num[2]]
+    want = cells[0] == 1 and cells[1] == 1 and cells[2] > 1
+    if ctx.canary:
+        want = want != (num[2] == 3 and lo[0] == 0)
+    ctx.check("axial-only iff the grid holds one (i, j) column of more than one cell", g.isAxialOnly == want)
+    if kind in ("hex", "cart"):
+        ctx.check("a step-defined grid holds one locator per cell of its index ranges", len(g) == cells[0] * cells[1] * cells[2])
+    # the consequence for nesting: indices of the parent cell are added only below an axial-only grid
+    top = composites.Composite("top")
+    pg = HexGrid.fromPitch(10.0, numRings=3)
+    pg.armiObject = top
+    top.spatialGrid = pg
+    mid = composites.Composite("mid")
+    top.add(mid)
+    mid.spatialLocator = pg[2, -1, 0]
+    g.armiObject = mid
+    mid.spatialGrid = g
+    loc = g[lo[0], lo[1], lo[2] + cells[2] - 1] if kind in ("hex", "cart") else g[0, 0, cells[2] - 1]
+    ci = tuple(loc.getCompleteIndices())
+    own = tuple(loc.indices)
+    ctx.check("a cell's complete indices add the parent cell's only in an axial-only grid",
+              ci == ((own[0] + 2, own[1] - 1, own[2]) if want else own))
